@@ -4,6 +4,7 @@ import (
 	. "github.com/glyphlang/glyph/pkg/ast"
 
 	"fmt"
+	"log"
 	"path/filepath"
 	"strings"
 	"sync"
@@ -976,6 +977,12 @@ func (i *Interpreter) EmitEvent(eventType string, eventData interface{}) error {
 		if handler.Async {
 			// In a real implementation, this would be executed asynchronously
 			go func(h EventHandler) {
+				// A panic in an async handler must not take the process down
+				defer func() {
+					if r := recover(); r != nil {
+						log.Printf("[EVENT] async handler for %q panicked: %v", eventType, r)
+					}
+				}()
 				i.ExecuteEventHandler(&h, eventData)
 			}(handler)
 		} else {
